@@ -75,6 +75,29 @@ def c01_scenarios(rng, n):
             # names written './path' (diff -u ./f.orig ./f), applied with -p0
             s = scen.dot_names(s) or s
         scns.append(s)
+    # one git diff over many files (a commit that touches a whole tree), the last entries copying / renaming files that earlier
+    # entries of the same diff change: every entry is relative to the tree before the diff
+    for _ in range(max(1, n // 150)):
+        secs = []
+        k = rng.choice([66, 70, 130])
+        for i_ in range(k):
+            a = [("f%d line %d" % (i_, j_), "L") for j_ in range(4)]
+            ops = [(" ", l) for l in a]; ops[1] = ("-", a[1]); ops.insert(2, ("+", ("f%d changed" % i_, "L")))
+            hs = gen.hunks_from_ops(ops, 1)
+            secs.append(dict(path="m/f%03d" % i_, newpath="m/f%03d" % i_, a=a, b=[l for o, l in ops if o != "-"], kind="change", fmt="git", hs=hs, ops=ops, mode_old=None, mode_new=None, w=1,
+                             text=emit.emit_git("m/f%03d" % i_, "m/f%03d" % i_, hs, kind="change")))
+        for kind_, src_ in (("copy", 0), ("copy", 1)):
+            a = secs[src_]["a"]
+            ops = [(" ", l) for l in a]; ops[3] = ("-", a[3]); ops.insert(4, ("+", ("tail of the %s" % kind_, "L")))
+            hs = gen.hunks_from_ops(ops, 1)
+            np_ = "m/z_%s%d" % (kind_, src_)
+            secs.append(dict(path=secs[src_]["path"], newpath=np_, a=a, b=[l for o, l in ops if o != "-"], kind=kind_, fmt="git", hs=hs, ops=ops, mode_old=None, mode_new=None, w=1,
+                             text=emit.emit_git(secs[src_]["path"], np_, hs, kind=kind_)))
+        secs = secs[:-1] if rng.random() < 0.5 else secs           # (one copy or two)
+        s0 = scen.base_scenario(rng, [x for x in secs if x["kind"] == "change"], opts={})
+        s0["tree"]["p.diff"] = ("R", 0o644, b"".join(x["text"] for x in secs))
+        s0["secs"] = secs; s0["many"] = True
+        scns.append(s0)
     # the last line changed, added to or removed, with every combination of "final newline missing" on the two sides, in all formats
     for _ in range(n // 6):
         a = [(gen.rand_text(rng, True) + str(i_), "L") for i_ in range(rng.randint(1, 6))]
@@ -182,6 +205,17 @@ def emitter_meta(s):
 
 def judge_c01(s, r):
     exp = scen.expected_tree(s)
+    if s.get("many"):
+        # the source of the copy keeps its own new version; a renamed source is gone, its own change notwithstanding
+        exp = {p_: v_ for p_, v_ in s["tree"].items()}
+        for x in s["secs"]:
+            if x["kind"] == "change":
+                exp[x["path"]] = ("R", 0o644, emit.file_bytes(x["b"]))
+        for x in s["secs"]:
+            if x["kind"] in ("copy", "rename"):
+                exp[x["newpath"]] = ("R", 0o644, emit.file_bytes(x["b"]))
+            if x["kind"] == "rename":
+                exp.pop(x["path"], None)
     got = tree_no_meta(r["tree"])
     # under newline modes other than the default the expected bytes differ only for CRLF content, which sections do not carry
     if r["exit"] != 0:
